@@ -180,10 +180,58 @@ def run_derive(a, d, rng):
         s = snap_int(w)
         case['weight'] = [s, s]
         case['total'] = case['total'] and all(v in asst2 for v in graph2.nodes())
+        case['_build'] = (build, val, names)
     except Exception as ex:  # noqa
         case['out'] = 'raise:' + type(ex).__name__
         case['err'] = str(ex)[:200]
     return case
+
+
+def run_derive_shared(a, d, case):
+    """the same derivation tree with identical subderivations built ONCE and used at every position where they occur
+    (as a memoising enumerator of derivations would): returns a `derive_shared` case, or None if nothing is shared"""
+    from fggs.derivations import FGGDerivation
+    if '_build' not in case:
+        return None
+    _, val, names = case.pop('_build')
+    c2 = {'kind': 'derive_shared', 'ag': a, 'd': d, 'out': 'ok', 'nn': -1, 'ne': -1, 'total': False, 'weight': [0, 0],
+          'assts': case['assts'], 'shared': 0}
+    try:
+        import torch
+        g, info = AG.build_fgg(a, 'real', torch.float64, implicit_ids=True)
+        memo = {}
+
+        def build(i):
+            ri = d[i - 1]['rule'] - 1
+            vals = tuple(val[names[(i, j + 1)]] for j in range(len(info['nodes'][ri])))
+            kids = []
+            for c in range(1, len(d) + 1):
+                if d[c - 1]['parent'] == i:
+                    kids.append((d[c - 1]['via'], build(c)))
+            key = (ri, vals, tuple((via, id(k)) for via, k in sorted(kids, key=lambda x: x[0])))
+            if key in memo:
+                c2['shared'] += 1
+                return memo[key]
+            dv = FGGDerivation(g, info['rules'][ri], dict(zip(info['nodes'][ri], vals)),
+                               {info['edges'][ri][via - 1]: k for via, k in kids})
+            memo[key] = dv
+            return dv
+        root = build(1)
+        if c2['shared'] == 0:
+            return None
+        graph, asst = root.derive()
+        c2['nn'], c2['ne'] = len(graph.nodes()), len(graph.edges())
+        c2['total'] = all(v in asst for v in graph.nodes())
+        w = 1.0
+        for e in graph.edges():
+            if e.label.is_terminal:
+                w *= float(graph.factors[e.label.name].apply([asst[v] for v in e.nodes]))
+        s_ = snap_int(w)
+        c2['weight'] = [s_, s_]
+    except Exception as ex:  # noqa
+        c2['out'] = 'raise:' + type(ex).__name__
+        c2['err'] = str(ex)[:200]
+    return c2
 
 
 def run_wrong(a, rng):
@@ -245,7 +293,12 @@ def run(tier, seed):
             nlin += len(lins)
             for order in lins:
                 cases.append(run_linearisation(a, d, order))
-            cases.append(run_derive(a, d, rng))
+            cd = run_derive(a, d, rng)
+            cases.append(cd)
+            cs = run_derive_shared(a, d, cd)
+            cd.pop('_build', None)
+            if cs is not None:
+                cases.append(cs)
             if t % 3 == 0:
                 w = run_wrong(a, rng)
                 if w:
@@ -275,6 +328,7 @@ def replay(path, seed):
         c2 = run_linearisation(c['ag'], c['d'], c['order'])
     elif c['kind'] == 'derive':
         c2 = run_derive(c['ag'], c['d'], rng)
+        c2.pop('_build', None)
     else:
         c2 = run_wrong(c['ag'], rng) or c
     with Scratch() as work:
